@@ -244,6 +244,12 @@ func genC09(seed int64, tier string) *Scenario {
 			twins = true
 			sc.Knobs["twins"] = true
 		}
+		if r.Intn(2) == 0 {
+			// an enum section (only checked when a luahelper.json exists) with equal values defined on
+			// one line: which member the duplicate-value warning sits on and which one it names
+			sc.Files = append(sc.Files, File{Path: "enums.lua", Data: Bytes("---@enum start\nRED, GREEN = 1, 1\nlocal up, down = \"v\", \"v\"\nE9A = 7; E9B = 7\nBLUE = 2\n---@enum end\n")})
+			sc.Knobs["enums"] = true
+		}
 		cfg := map[string]interface{}{"BaseDir": "./", "ShowWarnFlag": 1, "ProjectFiles": entries}
 		if r.Intn(2) == 0 {
 			cfg["ReferMatchPathFlag"] = 1 // full-path matching: every require goes through the file-exists cache
